@@ -27,7 +27,7 @@ class Check(Prop):
     RULE = ("cases = programs that do not reopen configured classes: golden corpus programs, grammar-generated programs, and "
             "concatenations of hand-written statement groups rich in the shapes that touch shared method types (operators and named "
             "methods on union receivers, OptionalUnify returns, push/<</concat growth, rest-parameter and keyword calls, destructive "
-            "methods, blocks). Oracle (state probe through the verif hook): the in-process server renders every table entry that exists "
+            "methods, blocks), and calls of every method of the shipped configuration with 15 fixed (enumerated) and generated argument lists, accepted and rejected. Oracle (state probe through the verif hook): the in-process server renders every table entry that exists "
             "before the analysis (all frames; arguments, return type incl. variants, flags, block parameters, overloads), runs the four "
             "rounds, renders the same keys again; any REMOVED or CHANGED pre-existing entry is a violation (entries added by inference and "
             "the display cache beforeEvaluateCode are ignored). Confirmation on the real binary: when the program followed by a probe "
@@ -58,13 +58,21 @@ class Check(Prop):
             yield {"src": p.text, "origin": "corpus:" + p.name}
         for g in MUTATORS:
             yield {"src": "\n".join(g) + "\n", "origin": "mutator"}
+        # every method of the shipped configuration with 15 right and wrong argument lists: accepted and rejected calls both run
+        # the code that reads (and must not write) the configured entry
+        from .. import shipped
+        for src in shipped.enumerated_programs(self.repo, per_program=12 if self.tier == "quick" else 6):
+            yield {"src": src, "origin": "shipped-calls"}
 
     def strategy(self):
         groups = MUTATORS + [f for f in FIXED_FRAGMENTS]
 
         @st.composite
         def case(draw):
-            k = draw(st.integers(0, 9))
+            k = draw(st.integers(0, 11))
+            if k >= 10:
+                from .. import shipped
+                return {"src": draw(shipped.strategy(self.repo)), "origin": "shipped-calls-generated"}
             if k < 5:
                 idx = draw(st.lists(st.integers(0, len(groups) - 1), min_size=1, max_size=5))
                 lines = []
@@ -97,7 +105,7 @@ class Check(Prop):
             return Verdict(None, labels, False, key, discard="crash")
         if o.kind != "ok":
             return Verdict(None, labels, False, key, discard="hang")
-        nontrivial = bool(re.search(r"\? .* : |\.push\(|<<|\.concat\(|\.first|\.last|\.merge|asterisk|!\s*$|!\n", src))
+        nontrivial = bool(re.search(r"\? .* : |\.push\(|<<|\.concat\(|\.first|\.last|\.merge|asterisk|!\s*$|!\n", src)) or labels[0].startswith("shipped-calls")
         if re.search(r" \? ", src):
             labels.append("union-values")
         if not o.snap:
